@@ -18,6 +18,15 @@ ASSUMPTIONS = ['bit-sequence multiplication of Arith.tla is the reference (check
                'wide circuits are evaluated along a witness topological order that TLC checks step by step']
 
 
+def design(tier, seed):
+    from .. import tlc
+
+    r = tlc.run_model('ArithLemmas', 'ArithLemmas.cfg', workers=8, tag='C08-lemma', xmx='4g')
+    tlc.cleanup(r['workdir'])
+    return {'states': r['distinct'], 'transitions': r['generated'],
+            'runs': [f'ArithLemmas (bit-sequence add/shift/mul/compare/sqrt = integer arithmetic, all a,b < 32): {r["distinct"]} states, {r["wall_s"]:.1f}s']}
+
+
 def sources(tier, seed, ctx):
     rng = random.Random(seed + 8)
     srcs = []
